@@ -946,3 +946,14 @@ def t_s2v_limit(t, acc):
         acc.observe("_S2V accepts a 128th component (RFC 5297 allows at most 127)")
     elif not isinstance(r[1], ValueError):
         acc.observe("_S2V refuses the 128th component with %s" % type(r[1]).__name__)
+    if r[0] != "ok":
+        # the refused component is not part of the vector: derive() still gives S2V of the 127 accepted ones
+        from ..ref import modes, aes
+        exp = modes.s2v(aes.AES(key), [b"x"] * 127)
+        d = run_lib(lambda: s.derive())
+        acc.count("evaluations")
+        if d[0] != "ok" or bytes(d[1]) != exp:
+            acc.violation("C12/S2V/derive-after-refused-component",
+                          "_S2V: 127 update() calls, a refused 128th, then derive() gives %s; RFC 5297 S2V of the 127 accepted components is %s"
+                          % (bytes(d[1]).hex() if d[0] == "ok" else type(d[1]).__name__, exp.hex()),
+                          {"part": "s2v-limit"})
